@@ -259,6 +259,30 @@ func TestC01_Boundaries(t *testing.T) {
 			}
 		}
 	}
+	// many large options at once: options areas around and beyond 32 KiB and 64 KiB (k values of 4,096 octets, and
+	// every code 1..254 with 300 octets each), where offsets and counts leave 15 and 16 bits
+	for _, k := range []int{7, 8, 9, 15, 16, 17, 20, 33} {
+		c := gen.V4Case{Op: 2, HType: 1, Xid: []byte{9, 8, 7, 6}, CHAddr: []byte{1, 2, 3, 4, 5, 6}}
+		for j := 0; j < k; j++ {
+			v := make([]byte, 4096)
+			for i := range v {
+				v[i] = byte(i*13 + j*31 + 1)
+			}
+			c.Opts = append(c.Opts, gen.V4Opt{Code: uint8(10 + 7*j), Val: v})
+		}
+		c01.one(t, c)
+	}
+	for _, per := range []int{1, 129, 300} {
+		c := gen.V4Case{Op: 1, HType: 1, Xid: []byte{9, 8, 7, 5}, CHAddr: []byte{1, 2, 3, 4, 5, 6}}
+		for code := 1; code <= 254; code++ {
+			v := make([]byte, per)
+			for i := range v {
+				v[i] = byte(i + code)
+			}
+			c.Opts = append(c.Opts, gen.V4Opt{Code: uint8(code), Val: v})
+		}
+		c01.one(t, c)
+	}
 	c01.rec.Class("boundary-enumeration")
 }
 
